@@ -165,6 +165,10 @@ def has_check_type_in_type(type_: type, check_type: type) -> bool:
     """Return True if a given type is a subclass of check_type or a complex
     type that has a subclass of check_type among it's arguments."""
 
+    if is_new_type(type_):
+        # NewType may wrap check_type at any nesting level
+        type_ = unwrap_newtype(type_)
+
     try:
         if issubclass(type_, check_type):
             return True
@@ -196,6 +200,9 @@ def _is_valid_child_field_type(
     caught in the outer function.
     """
 
+    if is_new_type(type_):
+        type_ = unwrap_newtype(type_)
+
     if not allow_sequence and is_optional(type_):
         # We do not allow optionals within sequences
         # So check this early
@@ -207,7 +214,11 @@ def _is_valid_child_field_type(
         # So easy check
 
         try:
-            if not all(issubclass(t, node_base_type) for t in args if t is not type(None)):
+            if not all(
+                issubclass(unwrap_newtype(t) if is_new_type(t) else t, node_base_type)
+                for t in args
+                if t is not type(None)
+            ):
                 return InvalidTypeReason.NON_NODE_TYPE
         except TypeError:
             return InvalidTypeReason.NON_NODE_TYPE
